@@ -12,6 +12,7 @@ import Jsonapi.Driver.Marshal
 import Jsonapi.Driver.Unmarshal
 import Jsonapi.Driver.Url
 import Jsonapi.Driver.Alias
+import Jsonapi.Driver.Codec
 open Jsonapi Jsonapi.Driver
 
 structure DState where
@@ -55,6 +56,9 @@ def stepLine (st : DState) (line : String) : DState × String :=
   | [.list (.atom "alias" :: args)] =>
     let (a', m) := stepAlias st.alias args
     ({ st with alias := a' }, m ++ "\t-\t1")
+  | [.list (.atom "codec" :: args)] =>
+    let (m, sp, dom) := stepCodec args
+    (st, m ++ "\t" ++ sp ++ "\t" ++ (if dom then "1" else "0"))
   | [.list (.atom "shared" :: _)] => (st, "-\t-\t1")
   | _ => (st, "bad-line\t-\t0")
 
